@@ -115,7 +115,7 @@ def N(tokens, input_side=False):
         if _DASH_TOKEN.match(s.strip()):
             s = "-"
         for c in s:
-            if c.isspace() or c in "⁡⁢⁣⁤​" or c in " ":
+            if c.isspace() or c in "⁡⁢⁣⁤​" or c in " " or c in "\ufeff\u200c\u200d\u2060":
                 continue
             out.append(norm_char(c))
     return "".join(out)
